@@ -127,6 +127,37 @@ def run_harness(ctx, args, timeout=1800, env_extra=None, check=True):
     return r.returncode, out
 
 
+def run_harness_chunks(ctx, component, mode, scn, chunk=6000, extra=None):
+    """Run `stsh <component> <mode>` on a scenario file in parallel chunks; returns (trace file, summaries)."""
+    lines = open(scn).read().splitlines()
+    heads = [l for l in lines if l.startswith('{"def"')]
+    body = [l for l in lines if not l.startswith('{"def"')]
+    n = max(1, min(NCPU, (len(body) + chunk - 1) // chunk)) if len(body) > chunk else min(NCPU, max(1, len(body) // 200 or 1))
+    parts = [body[i::n] for i in range(n)]
+
+    def one(i):
+        if not parts[i]:
+            return None
+        p = "%s.c%d" % (scn, i)
+        open(p, "w").write("\n".join(heads + parts[i]) + "\n")
+        tr, summ = p + ".tr", p + ".sum"
+        run_harness(ctx, [component, mode, "-in", p, "-traces", tr, "-out", summ] + (extra or []), timeout=2400)
+        return tr, summ
+
+    outs = []
+    with cf.ThreadPoolExecutor(max_workers=n) as ex:
+        for r in ex.map(one, range(n)):
+            if r:
+                outs.append(r)
+    tr_all = scn + ".traces"
+    sums = []
+    with open(tr_all, "w") as f:
+        for tr, summ in outs:
+            f.write(open(tr).read())
+            sums.append(json.load(open(summ)))
+    return tr_all, sums
+
+
 # ----------------------------------------------------------------------- TLC
 class TLCResult:
     def __init__(self):
@@ -318,7 +349,7 @@ def split_traces(path, parts, is_start):
 
 
 def validate_traces(ctx, module, trace_path, constants, invariants, properties=(), parts=None,
-                    is_start=lambda l: l.startswith('{"op":"reset"'), timeout=900, spec="TraceSpec",
+                    is_start=lambda l: '"op":"reset"' in l, timeout=900, spec="TraceSpec",
                     postcondition="TraceAccepted", deque=False, heap="2g"):
     """Validate an ndjson file of concatenated traces with TLC, in parallel parts.
 
@@ -327,6 +358,8 @@ def validate_traces(ctx, module, trace_path, constants, invariants, properties=(
     """
     d = _stage_specs(ctx)
     chunks = split_traces(trace_path, parts or NCPU, is_start)
+    if not chunks:
+        raise Inconclusive("no trace found in %s" % trace_path)
     results = []
 
     def one(ch):
